@@ -64,6 +64,57 @@ func c17r2(p *Program, r *Report) {
 	g := p.GraphOf(fi)
 	info := g.Info
 	nset := 0
+	// the "connections missing" variables: assigned from <pool>.size - ...
+	countVars := map[string]bool{}
+	for _, u := range p.unitsOf(fi) {
+		ast.Inspect(u.Decl.Body, func(n ast.Node) bool {
+			if as, ok := n.(*ast.AssignStmt); ok && len(as.Lhs) == len(as.Rhs) {
+				for i, rhs := range as.Rhs {
+					if b, isB := ast.Unparen(rhs).(*ast.BinaryExpr); isB && b.Op == token.SUB && p.isField(info, b.X, "hostConnPool", "size") {
+						if id, isId := as.Lhs[i].(*ast.Ident); isId {
+							countVars[id.Name] = true
+						}
+					}
+				}
+			}
+			return true
+		})
+	}
+	// a caller variable that receives such a count from a helper's named result carries the same meaning
+	for pass := 0; pass < 2; pass++ {
+		for _, u := range p.unitsOf(fi) {
+			ast.Inspect(u.Decl.Body, func(n ast.Node) bool {
+				as, ok := n.(*ast.AssignStmt)
+				if !ok || len(as.Rhs) != 1 {
+					return true
+				}
+				c, isC := ast.Unparen(as.Rhs[0]).(*ast.CallExpr)
+				if !isC {
+					return true
+				}
+				fn := calleeOf(info, c)
+				if fn == nil {
+					return true
+				}
+				h := p.FuncOf(fn)
+				if h == nil || h.Decl.Type.Results == nil {
+					return true
+				}
+				k := 0
+				for _, rf := range h.Decl.Type.Results.List {
+					for _, rn := range rf.Names {
+						if countVars[rn.Name] && k < len(as.Lhs) {
+							if id, isId := as.Lhs[k].(*ast.Ident); isId && id.Name != "_" {
+								countVars[id.Name] = true
+							}
+						}
+						k++
+					}
+				}
+				return true
+			})
+		}
+	}
 	// fill and the helpers it was split into
 	for _, u := range p.unitsOf(fi) {
 		ug := p.GraphOf(u)
@@ -95,11 +146,13 @@ func c17r2(p *Program, r *Report) {
 				r.Check(ls[root+".mu"], as, "(*hostConnPool).fill sets filling under the write lock", "write lock held", "filling is set without the write lock: two fillers can both start")
 				r.Check(ck && !closedV && fk && !fillV, as, "(*hostConnPool).fill sets filling after re-checking closed and filling in the same critical section",
 					"closed and filling known false since the lock was taken", "filling=true is not dominated by a re-check of closed/filling made in the same write-locked section (a second filler, or a fill of a closed pool, can start)")
-				// fill count re-checked too
+				// fill count re-checked too: a variable computed as <pool>.size - <number of connections> is known positive
 				okCount := false
 				for atom, val := range f.m {
-					if strings.Contains(atom, "fillCount") && (strings.HasSuffix(atom, " < 1") && !val || strings.HasPrefix(atom, "0 < ") && val) {
-						okCount = true
+					for cv := range countVars {
+						if mentions(atom, cv) && (strings.HasSuffix(atom, " < 1") && !val || strings.HasPrefix(atom, "0 < ") && val) {
+							okCount = true
+						}
 					}
 				}
 				r.Check(okCount, as, "(*hostConnPool).fill sets filling only when connections are missing", "fillCount > 0 known in the same section", "filling starts without a positive fill count computed under the lock: the pool can grow beyond its size")
@@ -139,6 +192,34 @@ func c17r2(p *Program, r *Report) {
 		if gs, ok := st.Node.(*ast.GoStmt); ok {
 			if lit, ok := gs.Call.Fun.(*ast.FuncLit); ok && litStops(lit) {
 				evs = append(evs, "stopped")
+			} else if fn := calleeOf(info, gs.Call); fn != nil {
+				// go pool.method(...): the method reaches fillingStopped on every path
+				if h := p.FuncOf(fn); h != nil && h.Decl.Body != nil && h.Pkg == p.Root {
+					hg := p.GraphOf(h)
+					hef := hg.Events(func(st2 Step) []string {
+						if st2.Kind == StNode {
+							for _, c := range callsIn(st2.Node) {
+								if isCallTo(info, c, "(*hostConnPool).fillingStopped") {
+									return []string{"stopped"}
+								}
+							}
+						}
+						return nil
+					})
+					all, nex := true, 0
+					for _, e := range hg.Exits() {
+						s, ok := hef.ExitState(e)
+						if ok && e.Kind != ExitPanic {
+							nex++
+							if !s.Must["stopped"] {
+								all = false
+							}
+						}
+					}
+					if all && nex > 0 {
+						evs = append(evs, "stopped")
+					}
+				}
 			}
 			return evs
 		}
@@ -353,6 +434,26 @@ func c17r3(p *Program, r *Report) {
 					}
 					return true
 				})
+				if !closes {
+					// the test lives in a helper that reports the outcome: the caller closes where the pool is known closed
+					for _, u2 := range p.unitsOf(fi) {
+						g2 := p.GraphOf(u2)
+						for _, c := range callsIn(u2.Decl.Body) {
+							if !isCallTo(info, c, "(*Conn).Close", "(*Conn).closeWithError") {
+								continue
+							}
+							f2, ok2 := g2.GuardFacts().Before(p.stmtOf(c, u2))
+							if !ok2 {
+								continue
+							}
+							for atom, v := range f2.m {
+								if v && strings.HasSuffix(atom, ".closed") && !strings.Contains(atom, " ") {
+									closes = true
+								}
+							}
+						}
+					}
+				}
 				r.Check(closes, ifs, "(*hostConnPool).connect closes a connection that arrives after Close", "late connection closed (that it is not added is the append's own obligation)",
 					"when the pool was closed meanwhile the new connection is not closed (or is still added): a connection outlives its pool")
 				return true
